@@ -91,7 +91,10 @@ impl Input {
             let mut any = false;
             for (a, e, v) in items.iter().filter(|(_, _, v)| *v as usize == b) {
                 any = true;
-                if a == e {
+                if a == e && order & 0x40 != 0 && (a % 3 == 0) {
+                    // a single code point spelled as a degenerate range (valid UCD syntax)
+                    s.push_str(&format!("{:04X}..{:04X}    ; {} # Xx   [1] SYNTHETIC\n", a, e, values[*v as usize]));
+                } else if a == e {
                     s.push_str(&format!("{:04X}          ; {} # Xx       SYNTHETIC\n", a, values[*v as usize]));
                 } else {
                     s.push_str(&format!("{:04X}..{:04X}    ; {} # Xx  [{}] SYNTHETIC\n", a, e, values[*v as usize], e - a + 1));
@@ -961,6 +964,12 @@ pub fn input_strategy() -> BoxedStrategy<Input> {
                     _ => (gc, ccc, bidi),
                 };
                 let dec = if len > 0 { 0 } else { dec };
+                // relations between the fields of one line: a decomposition that names the code point itself / its neighbour
+                let target = match same {
+                    9 => start as u32,
+                    8 => start as u32 + 1,
+                    _ => target,
+                };
                 ents.push(Ent { start: start as u32, end: end as u32, gc, ccc, bidi, dec, dtarget: target });
                 prev = Some((gc, ccc, bidi));
                 pos = end + 1;
